@@ -61,6 +61,9 @@ def cases(draw):
             s["k"], s["v"] = draw(key), draw(val)
         elif k == "update_list":
             s["keys"] = draw(st.lists(key, max_size=4))
+            if s["keys"] and draw(st.integers(0, 5)) == 0:  # one call with hundreds of entries (repeated, non-adjacent keys)
+                n = draw(st.sampled_from([255, 256, 257, 300, 1024]))
+                s["keys"] = [s["keys"][t % len(s["keys"])] for t in range(n)]
         elif k == "update_dict":
             s["items"] = [[x, draw(val)] for x in draw(st.lists(key, max_size=3, unique=True))]
         elif k == "add_ngram":
